@@ -32,6 +32,7 @@ import (
 	"net/http/httptest"
 	"os"
 	"path"
+	"reflect"
 	"sort"
 	"strconv"
 	"strings"
@@ -1362,6 +1363,138 @@ func jwtJoin(hdr, pl any, sig string) string {
 
 // ---------------------------------------------------------------- the test
 
+// ---------------------------------------------------------------- deepening round: caseVariantMember / ambiguousMember as a function
+
+// c01Tree encodes a decoded JSON value for the model: null = leaf, {"o": [[foldedName, child], ...]} (members sorted by raw name),
+// {"a": [...]}; the folded names come from the real foldRune (unicode.SimpleFold orbits are a library contract)
+func c01Tree(v any) any {
+	switch x := v.(type) {
+	case map[string]any:
+		names := make([]string, 0, len(x))
+		for k := range x {
+			names = append(names, k)
+		}
+		sort.Strings(names)
+		ms := []any{}
+		for _, k := range names {
+			ms = append(ms, []any{strings.Map(verifier.VerifFoldRune, k), c01Tree(x[k])})
+		}
+		return map[string]any{"o": ms}
+	case []any:
+		xs := []any{}
+		for _, e := range x {
+			xs = append(xs, c01Tree(e))
+		}
+		return map[string]any{"a": xs}
+	}
+	return nil
+}
+
+func c01CaseVariantOp(o *c01Out, label, text, into string) {
+	op := map[string]any{"op": "case-variant", "label": label, "text": text, "into": into}
+	var doc map[string]any
+	if err := json.Unmarshal([]byte(text), &doc); err != nil {
+		o.emit(op, "unparseable")
+		return
+	}
+	var target any
+	switch into {
+	case "vc":
+		target = vc.VerifiableCredential{}
+	case "*vp":
+		target = &vc.VerifiablePresentation{}
+	case "**vc":
+		p := &vc.VerifiableCredential{}
+		target = &p
+	case "map":
+		target = map[string]any{}
+	default:
+		target = nil
+	}
+	// the json names of the struct the document was decoded into, and per top-level member the names it is EqualFold to
+	fields := []string{}
+	st := reflect.TypeOf(target)
+	for st != nil && st.Kind() == reflect.Pointer {
+		st = st.Elem()
+	}
+	if st != nil && st.Kind() == reflect.Struct {
+		for i := 0; i < st.NumField(); i++ {
+			name, _, _ := strings.Cut(st.Field(i).Tag.Get("json"), ",")
+			if name != "" && name != "-" {
+				fields = append(fields, name)
+			}
+		}
+	}
+	members := make([]string, 0, len(doc))
+	for k := range doc {
+		members = append(members, k)
+	}
+	sort.Strings(members)
+	top := []any{}
+	for _, m := range members {
+		eq := []string{}
+		for _, f := range fields {
+			if strings.EqualFold(m, f) {
+				eq = append(eq, f)
+			}
+		}
+		top = append(top, []any{m, eq})
+	}
+	op["fields"], op["top"], op["tree"] = fields, top, c01Tree(doc)
+	line := "clean"
+	func() {
+		defer func() {
+			if r := recover(); r != nil {
+				line = "panic"
+			}
+		}()
+		if verifier.VerifCaseVariantMember(proof.SignedDocument(doc), target) != "" {
+			line = "variant"
+		}
+	}()
+	o.emit(op, line)
+}
+
+func c01CaseVariantLeg(o *c01Out, rnd *rand.Rand, n int) {
+	pool := []string{"id", "ID", "Id", "issuer", "Issuer", "type", "TYPE", "proof", "Proof", "credentialSubject", "credentialsubject", "holder", "Holder",
+		"verifiableCredential", "VerifiableCredential", "name", "Name", "NAME", "\u017f", "S", "s", "\u212a", "k", "K", "x1", "x2", "@context", "@Context", "issuanceDate", "expirationdate"}
+	var gen func(depth int) any
+	gen = func(depth int) any {
+		switch k := rnd.Intn(7); {
+		case depth > 0 && k <= 2:
+			m := map[string]any{}
+			for i, nm := 0, rnd.Intn(4); i < nm; i++ {
+				m[pool[rnd.Intn(len(pool))]] = gen(depth - 1)
+			}
+			return m
+		case depth > 0 && k == 3:
+			l := []any{}
+			for i, nm := 0, rnd.Intn(3); i < nm; i++ {
+				l = append(l, gen(depth-1))
+			}
+			return l
+		case k == 4:
+			return nil
+		case k == 5:
+			return rnd.Intn(10)
+		}
+		return "v"
+	}
+	intos := []string{"vc", "vc", "*vp", "**vc", "map", "nil"}
+	for i := 0; i < n; i++ {
+		doc := map[string]any{}
+		// mostly distinct-folding top-level names so that clean documents are frequent; the variants come from depth
+		for j, nm := 0, 1+rnd.Intn(4); j < nm; j++ {
+			name := pool[rnd.Intn(len(pool))]
+			if rnd.Intn(3) != 0 {
+				name = []string{"id", "issuer", "type", "proof", "credentialSubject", "@context", "x1", "x2", "holder"}[rnd.Intn(9)]
+			}
+			doc[name] = gen(3)
+		}
+		c01CaseVariantOp(o, "case-variant", mustJSON(doc), intos[rnd.Intn(len(intos))])
+	}
+}
+
 func TestVerifC01(t *testing.T) {
 	outDir := os.Getenv("VERIF_OUT")
 	if outDir == "" {
@@ -1402,6 +1535,7 @@ func TestVerifC01(t *testing.T) {
 	}
 	n := newC01Nodes(t)
 	n.generate(o, rnd, thorough)
+	c01CaseVariantLeg(o, rnd, map[bool]int{false: 600, true: 5000}[thorough])
 	statusScenario(t, o, rnd, "", true)
 	statusScenario(t, o, rnd, "fold-after-cache", false)
 	statusScenario(t, o, rnd, "down-after-cache", false)
@@ -3121,6 +3255,8 @@ func (n *c01Nodes) replay(o *c01Out, file string, prefix string) {
 				}
 			}
 			n.trustFile(o, rows)
+		case "case-variant":
+			c01CaseVariantOp(o, prefix+str("label"), str("text"), str("into"))
 		case "vc", "vp":
 			c := c01Call{kind: str("op"), text: str("text"), label: prefix + str("label"), base: prefix + str("base"), mut: str("mut"), path: str("path")}
 			c.allowUntrusted, _ = op["allowUntrusted"].(bool)
